@@ -3,6 +3,7 @@
 From Salsa Require Import Base.
 From Salsa.Kern Require Import CoreK CoreKFacts.
 From Salsa.Core Require Import Model Spec Dsl ReuseProofs.
+From Salsa.Core Require Import Inv InvTop DInvTop DReuse DReuseTop DReuseValid DReuseExamples.
 
 (* A result that is verified in the current revision is returned without executing or
    validating anything (no event, memo table untouched). *)
@@ -45,3 +46,235 @@ Check C03_refuted_evicted_callee :
   snd (run_ops kf_prog (fun _ => false) [1] 5 kf_init kf_ops_evicted) = [Ok 3; Ok 0; Ok 0; Ok 3] /\
   snd (run_ops kf_prog (fun _ => false) [1] 5 kf_init kf_ops_kept) = [Ok 3; Ok 0; Ok 3].
 Print Assumptions C03_refuted_evicted_callee.
+
+(* ------------------------------------------------------------------------------------
+   EVENT-LEVEL THEOREMS over whole histories of the executable Core model: every acyclic
+   program, every no_eq / LRU configuration, inputs and writes of every durability, every
+   history of operations (as in C01_from_scratch).  [gets_sat P fuel s ops] says that P holds of
+   every Get of the history: P s q s' r, where s is the state before the Get of q, s' the
+   state after it, r its outcome. *)
+Theorem C03_gets_sat_spec :
+  forall prog noeq fams (P : db -> qkey -> db -> out -> Prop) fuel s o ops,
+  gets_sat prog noeq fams P fuel s [] = True /\
+  gets_sat prog noeq fams P fuel s (o :: ops) =
+    ((match o with
+      | OGet q => P s q (fst (step prog noeq fams fuel s o)) (snd (step prog noeq fams fuel s o))
+      | _ => True
+      end) /\
+     gets_sat prog noeq fams P fuel (fst (step prog noeq fams fuel s o)) ops).
+Proof. intros; split; reflexivity. Qed.
+Check C03_gets_sat_spec :
+  forall prog noeq fams (P : db -> qkey -> db -> out -> Prop) fuel s o ops,
+  gets_sat prog noeq fams P fuel s [] = True /\
+  gets_sat prog noeq fams P fuel s (o :: ops) =
+    ((match o with
+      | OGet q => P s q (fst (step prog noeq fams fuel s o)) (snd (step prog noeq fams fuel s o))
+      | _ => True
+      end) /\
+     gets_sat prog noeq fams P fuel (fst (step prog noeq fams fuel s o)) ops).
+Print Assumptions C03_gets_sat_spec.
+
+(* Every execution is justified.  For every Get that returns a value, the events it logged are
+   [new] (d_log s' = new ++ d_log s, newest first), and every [EvExec q] in [new] is justified by
+   the state BEFORE the Get: q had no memo; or its value was evicted; or its previous execution
+   read untracked state; or an input field it recorded was written since it was validated; or a
+   tracked function d it recorded
+     - has no value (evicted callee: the known finding below, kept as an explicit disjunct), or
+     - has a changed_at stamp later than q's verified_at (it re-executed without backdating in
+       an earlier request since q was validated), or
+     - was executed in this very Get and could not be backdated: it is no_eq, or became less
+       durable, or produced a value differing from its previous one. *)
+Theorem C03_justified_spec :
+  forall prog noeq NF s q0 s' r,
+  exec_justified prog noeq NF s q0 s' r <->
+  (forall v, r = Ok v ->
+   exists new, d_log s' = new ++ d_log s /\
+     forall q, In (EvExec q) new ->
+       d_memo s q = None \/
+       exists m, d_memo s q = Some m /\
+         (m_val m = None \/
+          m_untracked m = true \/
+          (exists i, In (EIn i) (m_edges m) /\ m_verified m < f_changed (d_in s i)) \/
+          (exists d, In (EQ d) (m_edges m) /\
+             ((forall md, d_memo s d = Some md -> m_val md = None) \/
+              (exists md, d_memo s d = Some md /\ m_verified m < m_changed md) \/
+              (In (EvExec d) new /\
+               exists md md', d_memo s d = Some md /\ d_memo s' d = Some md' /\
+                 (noeq d = true \/ m_dur md' < m_dur md \/
+                  exists ov, m_val md = Some ov /\ ov <> eval prog NF (snap_of s) d)))))).
+Proof. intros; reflexivity. Qed.
+Check C03_justified_spec :
+  forall prog noeq NF s q0 s' r,
+  exec_justified prog noeq NF s q0 s' r <->
+  (forall v, r = Ok v ->
+   exists new, d_log s' = new ++ d_log s /\
+     forall q, In (EvExec q) new ->
+       d_memo s q = None \/
+       exists m, d_memo s q = Some m /\
+         (m_val m = None \/
+          m_untracked m = true \/
+          (exists i, In (EIn i) (m_edges m) /\ m_verified m < f_changed (d_in s i)) \/
+          (exists d, In (EQ d) (m_edges m) /\
+             ((forall md, d_memo s d = Some md -> m_val md = None) \/
+              (exists md, d_memo s d = Some md /\ m_verified m < m_changed md) \/
+              (In (EvExec d) new /\
+               exists md md', d_memo s d = Some md /\ d_memo s' d = Some md' /\
+                 (noeq d = true \/ m_dur md' < m_dur md \/
+                  exists ov, m_val md = Some ov /\ ov <> eval prog NF (snap_of s) d)))))).
+Print Assumptions C03_justified_spec.
+
+Theorem C03_exec_justified :
+  forall (prog : qkey -> body) (noeq : qkey -> bool) (fams : list N)
+         (rank : qkey -> nat) (NF : nat),
+  calls_below prog rank -> (forall q, (rank q < NF)%nat) ->
+  forall fuel, (forall p, (rank p < fuel)%nat) ->
+  forall iv idur lru0 ops,
+    (forall i, idur i <= 3) -> Forall dur_op ops -> wf_ops false ops ->
+    gets_sat prog noeq fams (exec_justified prog noeq NF) fuel (init iv idur lru0) ops.
+Proof.
+  intros prog noeq fams rank NF Hrank Hbound.
+  exact (exec_justified_init prog noeq fams rank Hrank NF Hbound).
+Qed.
+Check C03_exec_justified :
+  forall (prog : qkey -> body) (noeq : qkey -> bool) (fams : list N)
+         (rank : qkey -> nat) (NF : nat),
+  calls_below prog rank -> (forall q, (rank q < NF)%nat) ->
+  forall fuel, (forall p, (rank p < fuel)%nat) ->
+  forall iv idur lru0 ops,
+    (forall i, idur i <= 3) -> Forall dur_op ops -> wf_ops false ops ->
+    gets_sat prog noeq fams (exec_justified prog noeq NF) fuel (init iv idur lru0) ops.
+Print Assumptions C03_exec_justified.
+
+(* Backdating.  In a Get that returns a value, the changed_at stamp of a function d differs
+   before and after only if d was executed in this Get and backdating was impossible (no_eq,
+   no previous value, lower durability, or a different value) ... *)
+Theorem C03_stamp_moves_spec :
+  forall noeq s q0 s' r,
+  stamp_moves_justified noeq s q0 s' r <->
+  (forall v, r = Ok v ->
+   exists new, d_log s' = new ++ d_log s /\
+     forall d md md', d_memo s d = Some md -> d_memo s' d = Some md' ->
+       m_changed md <> m_changed md' ->
+       In (EvExec d) new /\
+       (noeq d = true \/ m_val md = None \/ m_dur md' < m_dur md \/
+        exists ov v', m_val md = Some ov /\ m_val md' = Some v' /\ ov <> v')).
+Proof. intros; reflexivity. Qed.
+Check C03_stamp_moves_spec :
+  forall noeq s q0 s' r,
+  stamp_moves_justified noeq s q0 s' r <->
+  (forall v, r = Ok v ->
+   exists new, d_log s' = new ++ d_log s /\
+     forall d md md', d_memo s d = Some md -> d_memo s' d = Some md' ->
+       m_changed md <> m_changed md' ->
+       In (EvExec d) new /\
+       (noeq d = true \/ m_val md = None \/ m_dur md' < m_dur md \/
+        exists ov v', m_val md = Some ov /\ m_val md' = Some v' /\ ov <> v')).
+Print Assumptions C03_stamp_moves_spec.
+
+Theorem C03_stamp_moves :
+  forall (prog : qkey -> body) (noeq : qkey -> bool) (fams : list N)
+         (rank : qkey -> nat) (NF : nat),
+  calls_below prog rank -> (forall q, (rank q < NF)%nat) ->
+  forall fuel, (forall p, (rank p < fuel)%nat) ->
+  forall iv idur lru0 ops,
+    (forall i, idur i <= 3) -> Forall dur_op ops -> wf_ops false ops ->
+    gets_sat prog noeq fams (stamp_moves_justified noeq) fuel (init iv idur lru0) ops.
+Proof.
+  intros prog noeq fams rank NF Hrank Hbound.
+  exact (stamp_moves_init prog noeq fams rank Hrank NF Hbound).
+Qed.
+Check C03_stamp_moves :
+  forall (prog : qkey -> body) (noeq : qkey -> bool) (fams : list N)
+         (rank : qkey -> nat) (NF : nat),
+  calls_below prog rank -> (forall q, (rank q < NF)%nat) ->
+  forall fuel, (forall p, (rank p < fuel)%nat) ->
+  forall iv idur lru0 ops,
+    (forall i, idur i <= 3) -> Forall dur_op ops -> wf_ops false ops ->
+    gets_sat prog noeq fams (stamp_moves_justified noeq) fuel (init iv idur lru0) ops.
+Print Assumptions C03_stamp_moves.
+
+(* ... in particular a function that executes again and returns a value equal to its previous one
+   keeps its changed_at stamp, so (C03_exec_justified) no function is executed because of it. *)
+Theorem C03_equal_value_backdated : forall noeq s q0 s' r,
+  stamp_moves_justified noeq s q0 s' r -> forall v, r = Ok v ->
+  forall d md md' ov, d_memo s d = Some md -> d_memo s' d = Some md' ->
+    noeq d = false -> m_dur md <= m_dur md' -> m_val md = Some ov -> m_val md' = Some ov ->
+    m_changed md' = m_changed md.
+Proof. exact equal_value_backdated. Qed.
+Check C03_equal_value_backdated : forall noeq s q0 s' r,
+  stamp_moves_justified noeq s q0 s' r -> forall v, r = Ok v ->
+  forall d md md' ov, d_memo s d = Some md -> d_memo s' d = Some md' ->
+    noeq d = false -> m_dur md <= m_dur md' -> m_val md = Some ov -> m_val md' = Some ov ->
+    m_changed md' = m_changed md.
+Print Assumptions C03_equal_value_backdated.
+
+(* Frugality (the converse).  A query is [settled] when it has a memo with a value that is
+   verified in the current revision, or whose durability level saw no write since it was
+   verified, or that is tracked with every recorded input edge unwritten since its verified_at
+   and every recorded callee settled with a changed_at stamp not later than that verified_at.
+   A Get of a settled query returns the from-scratch value and executes NOTHING: the events it
+   logs are validations only. *)
+Theorem C03_unchanged_reused_spec :
+  forall prog NF s q s' r,
+  unchanged_reused prog NF s q s' r <->
+  (settled s q -> forall v, r = Ok v ->
+   v = eval prog NF (snap_of s) q /\
+   exists new, d_log s' = new ++ d_log s /\ forall x, ~ In (EvExec x) new).
+Proof. intros; reflexivity. Qed.
+Check C03_unchanged_reused_spec :
+  forall prog NF s q s' r,
+  unchanged_reused prog NF s q s' r <->
+  (settled s q -> forall v, r = Ok v ->
+   v = eval prog NF (snap_of s) q /\
+   exists new, d_log s' = new ++ d_log s /\ forall x, ~ In (EvExec x) new).
+Print Assumptions C03_unchanged_reused_spec.
+
+Theorem C03_unchanged_reused :
+  forall (prog : qkey -> body) (noeq : qkey -> bool) (fams : list N)
+         (rank : qkey -> nat) (NF : nat),
+  calls_below prog rank -> (forall q, (rank q < NF)%nat) ->
+  forall fuel, (forall p, (rank p < fuel)%nat) ->
+  forall iv idur lru0 ops,
+    (forall i, idur i <= 3) -> Forall dur_op ops -> wf_ops false ops ->
+    gets_sat prog noeq fams (unchanged_reused prog NF) fuel (init iv idur lru0) ops.
+Proof.
+  intros prog noeq fams rank NF Hrank Hbound.
+  exact (unchanged_reused_init prog noeq fams rank Hrank NF Hbound).
+Qed.
+Check C03_unchanged_reused :
+  forall (prog : qkey -> body) (noeq : qkey -> bool) (fams : list N)
+         (rank : qkey -> nat) (NF : nat),
+  calls_below prog rank -> (forall q, (rank q < NF)%nat) ->
+  forall fuel, (forall p, (rank p < fuel)%nat) ->
+  forall iv idur lru0 ops,
+    (forall i, idur i <= 3) -> Forall dur_op ops -> wf_ops false ops ->
+    gets_sat prog noeq fams (unchanged_reused prog NF) fuel (init iv idur lru0) ops.
+Print Assumptions C03_unchanged_reused.
+
+(* non-vacuity (Core/DReuseExamples.v): the history rx_ops satisfies the hypotheses; in it g
+   executes again after a write, returns the equal value 2, keeps changed_at 1, and its caller f
+   is only validated; later f is settled and a Get of f logs two validations and no execution *)
+Theorem C03_examples :
+  gets_sat rx_prog rx_noeq [] (exec_justified rx_prog rx_noeq 2) 2 rx_init rx_ops /\
+  gets_sat rx_prog rx_noeq [] (stamp_moves_justified rx_noeq) 2 rx_init rx_ops /\
+  gets_sat rx_prog rx_noeq [] (unchanged_reused rx_prog 2) 2 rx_init rx_ops /\
+  rx_new 4 = [EvValidate (0, 0); EvExec (1, 0)] /\
+  option_map (fun m => (m_val m, m_verified m, m_changed m)) (d_memo (fst (rx_run 3)) (1, 0)) = Some (Some 2, 1, 1) /\
+  option_map (fun m => (m_val m, m_verified m, m_changed m)) (d_memo (fst (rx_run 4)) (1, 0)) = Some (Some 2, 2, 1) /\
+  settled (fst (rx_run 12)) (0, 0) /\
+  rx_new 13 = [EvValidate (0, 0); EvValidate (1, 0)].
+Proof.
+  split; [exact rx_exec_justified|]. split; [exact rx_stamp_moves|]. split; [exact rx_unchanged_reused|].
+  destruct rx_backdating as (A & B & C & _). split; [exact A|]. split; [exact B|]. split; [exact C|].
+  split; [exact rx_settled | exact (proj1 rx_reused)].
+Qed.
+Check C03_examples :
+  gets_sat rx_prog rx_noeq [] (exec_justified rx_prog rx_noeq 2) 2 rx_init rx_ops /\
+  gets_sat rx_prog rx_noeq [] (stamp_moves_justified rx_noeq) 2 rx_init rx_ops /\
+  gets_sat rx_prog rx_noeq [] (unchanged_reused rx_prog 2) 2 rx_init rx_ops /\
+  rx_new 4 = [EvValidate (0, 0); EvExec (1, 0)] /\
+  option_map (fun m => (m_val m, m_verified m, m_changed m)) (d_memo (fst (rx_run 3)) (1, 0)) = Some (Some 2, 1, 1) /\
+  option_map (fun m => (m_val m, m_verified m, m_changed m)) (d_memo (fst (rx_run 4)) (1, 0)) = Some (Some 2, 2, 1) /\
+  settled (fst (rx_run 12)) (0, 0) /\
+  rx_new 13 = [EvValidate (0, 0); EvValidate (1, 0)].
+Print Assumptions C03_examples.
